@@ -9,15 +9,42 @@ namespace Config
 /-- texts are lists of characters (python `str`; the model covers ASCII case mapping and ASCII white space) -/
 abbrev Text := List Char
 
-/-- the `if` tests of `ConfigValue.parse`, in the vocabulary of the source -/
+/-- the `if` branches of `ConfigValue.parse`, named after the class `self.type` is tested against (the DISPATCH classes;
+`custom` = the test on `self.parser`).  `int` is not a branch of the present source; it is a dispatch class of the type
+lattice (`bool` is a subclass of `int`, `IntEnum` members are `int`s) and the translator accepts such a branch. -/
 inductive Branch where
   | custom      -- `if self.parser:`
-  | bool        -- `if self.type is bool:`
-  | path        -- `if self.type is Path:`
-  | str         -- `if self.type is str:`
-  | enum        -- `if issubclass(self.type, enum.Enum):`
-  | mapping     -- `if issubclass(self.type, Mapping):`
-  | iterable    -- `if issubclass(self.type, Iterable):`
+  | bool        -- `… bool …`
+  | path        -- `… Path …`
+  | str         -- `… str …`
+  | enum        -- `… enum.Enum …`
+  | mapping     -- `… Mapping …`
+  | iterable    -- `… Iterable …`
+  | int         -- `… int …`
+  deriving DecidableEq, Repr
+
+/-- HOW a branch tests `self.type` against its dispatch class -/
+inductive TestKind where
+  | truthy      -- `if self.parser:` (only the custom branch)
+  | identity    -- `self.type is T` / `self.type == T`: holds for `T` itself only, never for a subclass
+  | subclass    -- `issubclass(self.type, T)`: holds for `T` and every subclass
+  | instance    -- `isinstance(self.default, T)`: the same relation (`self.type` is `type(self.default)`)
+  deriving DecidableEq, Repr
+
+/-- what a branch does with the text -/
+inductive Body where
+  | std         -- the body belonging to the dispatch class (custom parser call, bool tests, enum `try/except` chain, mapping,
+                -- iterable): described by the other generated constants
+  | text        -- `return s`
+  | named       -- `return T(s)`, `T` the dispatch class written out (`Path(s)`, `int(s)`, `str(s)`)
+  | selfType    -- `return self.type(s)`
+  deriving DecidableEq, Repr
+
+/-- one `if <test>: <body>` of `ConfigValue.parse` -/
+structure Test where
+  cls : Branch
+  kind : TestKind
+  body : Body
   deriving DecidableEq, Repr
 
 /-- the three sources of `ConfigValue.__get__` -/
@@ -30,6 +57,7 @@ inductive Source where
 /-- string methods applied to a text before it is compared / looked up (in application order) -/
 inductive StrOp where
   | lower | upper | strip
+  | replace (a b : Char)             -- `.replace("a", "b")` for one-character texts
   deriving DecidableEq, Repr
 
 /-- one attempt of the enum branch (`try … except …` chain) -/
@@ -49,6 +77,27 @@ inductive NameTest where
 inductive CVField where
   | envVar                           -- `env_var=v._env_var`
   | parser                           -- `parser=v.parser`
+  deriving DecidableEq, Repr
+
+/-- attributes of a `ConfigValue` object written by `__init__` / `__set_name__` -/
+inductive CVAttr where
+  | default | type | parser | envVar | envPrefix | owner | name
+  deriving DecidableEq, Repr
+
+/-- right-hand sides of those assignments -/
+inductive InitSrc where
+  | argDefault          -- the parameter `default`
+  | typeOfDefault       -- `type(default)`
+  | argParser           -- the parameter `parser`
+  | argEnvVar           -- the parameter `env_var`
+  | argEnvPrefix        -- the parameter `env_var_prefix`
+  | argOwner            -- `__set_name__`: the parameter `owner`
+  | argName             -- `__set_name__`: the parameter `name`
+  deriving DecidableEq, Repr
+
+/-- what `ConfigMeta.to_dict` puts under a name -/
+inductive DictYield where
+  | descriptor          -- the `ConfigValue` object found in the metaclass' `__dict__`
   deriving DecidableEq, Repr
 
 /-- python exception classes the model distinguishes -/
